@@ -45,6 +45,9 @@ def configs(tier):
                             c = {"role": role, "failByDrop": fbd, "echo": echo, "cht": cht,
                                  "sdt": sdt, "start": start}
                             out.append(c)
+    # server whose onConnect answers asynchronously: the peer may be gone before the answer
+    out.append({"role": "server", "failByDrop": False, "echo": False, "cht": 1, "sdt": 1,
+                "start": "connecting", "dconn": True})
     if tier == "thorough":
         return out
     keep = []
@@ -89,7 +92,9 @@ def main(ctx):
     for n in ("states", "transitions", "bounded_time_runs", "reached:onclose_clean",
               "reached:onclose_unclean", "reached:close_timer_fired", "reached:peer_close_while_closing",
               "reached:closeframe_sent", "reached:own_drop_delivered", "reached:data_after_our_close_ignored",
-              "reached:sendclose_while_closing", "reached:connecting_lost", "reason_cases", "code_cases", "code_echoed", "code_rejected"):
+              "reached:sendclose_while_closing", "reached:connecting_lost",
+              "reached:deferred_onconnect_resolved_late", "reached:queued_write",
+              "reached:frames_behind_peer_close", "reason_cases", "code_cases", "code_echoed", "code_rejected"):
         ctx.require(n)
 
 
@@ -107,7 +112,17 @@ class Sys:
                 "closeHandshakeTimeout": cfg["cht"], "openHandshakeTimeout": 5}
         if role == "client":
             opts["serverConnectionDropTimeout"] = cfg["sdt"]
-        self.ep = ws.Endpoint(role, opts)
+        self.connect_future = None   # server: onConnect answers asynchronously (cfg "dconn")
+        self.connect_resolved = False
+        hooks = None
+        if cfg.get("dconn"):
+            import txaio
+
+            def connect(proto, request):
+                self.connect_future = txaio.create_future()
+                return self.connect_future
+            hooks = {"connect": connect}
+        self.ep = ws.Endpoint(role, opts, hooks=hooks)
         self.conn = self.ep.conn
         self.proto = self.ep.proto
         self.t = self.ep.t
@@ -120,6 +135,7 @@ class Sys:
         self.rec_len_at_first_valid_close = None
         self.peer_close_any = False
         self.hs_done_len = 0
+        self.hs_fed = False
         self.deferred = False        # aio: octets queued, not yet processed
         self.notes = set()
         if cfg["start"] == "open":
@@ -134,6 +150,7 @@ class Sys:
             req = bytes(self.t.written)
             ep.feed(ep.client_response(req))
         self.hs_done_len = len(self.t.written)
+        self.hs_fed = True
 
     # -- menu
     def enabled(self):
@@ -154,14 +171,16 @@ class Sys:
             ev += ["sendClose", "sendClose1000", "sendClose3000r", "sendCloseLong", "sendMessage",
                    "sendMessageSync", "sendPing"]
         if reading:
-            if p.state == S_CONNECTING and not self.hs_done_len:
+            if p.state == S_CONNECTING and not self.hs_done_len and not self.hs_fed:
                 ev += ["peer:handshake", "peer:garbage-handshake"]
             elif self.hs_done_len:
                 ev += ["peer:close1000", "peer:closeEmpty", "peer:close1005", "peer:closeBadUtf8",
-                       "peer:close1octet", "peer:text", "peer:ping", "peer:op3"]
+                       "peer:close1octet", "peer:text", "peer:ping", "peer:op3", "peer:closeThenMore"]
                 from mc import worker
                 if worker.ENV.get("fw") == "aio" and not self.deferred:
                     ev += ["peerq:close1000", "peerq:text"]
+        if self.connect_future is not None and not self.connect_resolved:
+            ev.append("app:connect-ok")
         if self.conn.next_deadline() is not None:
             ev.append("clock:next")
         ev.append("clock:+0.25")
@@ -185,6 +204,10 @@ class Sys:
             return F.encode(8, F.close_payload(1000, b"\xff\xfe"), mask=m), None
         if name == "close1octet":
             return F.encode(8, b"\x03", mask=m), None
+        if name == "closeThenMore":
+            # one read: the peer's close frame, and behind it a data frame and another close frame
+            return (F.encode(8, F.close_payload(1000, b"bye"), mask=m) + F.encode(1, b"late", mask=m) +
+                    F.encode(8, F.close_payload(3001, b"second"), mask=m)), (1000, b"bye")
         if name == "text":
             return F.encode(1, b"hi", mask=m), None
         if name == "ping":
@@ -224,6 +247,16 @@ class Sys:
                         raise
                     if len(self.t.written) != pre_written:
                         self.api_errors.append("sendMessage raised Disconnected but wrote octets")
+            elif ev == "app:connect-ok":
+                import txaio
+                self.connect_resolved = True
+                txaio.resolve(self.connect_future, None)
+                self.conn.settle()
+                if p.state == S_OPEN:
+                    self.hs_done_len = len(self.t.written)
+                self.notes.add("deferred_onconnect_resolved")
+                if self.conn.lost or self.t.calls:
+                    self.notes.add("deferred_onconnect_resolved_late")
             elif ev == "sendPing":
                 p.sendPing(b"lp")
             elif ev == "peer:handshake":
@@ -240,6 +273,8 @@ class Sys:
                     self.notes.add("peer_close_while_closing")
                 if p.state == S_CLOSING and name == "text" and p.closedByMe:
                     self.notes.add("data_after_our_close")
+                if name == "closeThenMore":
+                    self.notes.add("frames_behind_peer_close")
                 if name.startswith("close"):
                     if not self.peer_close_any:
                         self.first_peer_close_valid = valid_close is not None
@@ -338,6 +373,7 @@ class Sys:
         return {"attrs": attrs, "tr": tr, "timers": self.conn.pending_timers(),
                 "frac": round(self.conn.now() % 1.0, 3), "log": self.log_abstraction(),
                 "deferred": self.deferred, "hs": self.hs_done_len > 0,
+                "dconn": (self.connect_future is not None, self.connect_resolved),
                 "escapes": len(self.conn.escapes), "api_errors": len(self.api_errors)}
 
 
